@@ -188,4 +188,130 @@ Proof.
   - split; [lia|discriminate].
 Qed.
 
+Lemma seq_snoc : forall k, seq 0 (S k) = seq 0 k ++ [k].
+Proof. intros k. rewrite seq_S. reflexivity. Qed.
+
+Lemma step_swrite : forall a a', AInv a -> astep cf n W P a XSWrite = Some a' -> AInv a'.
+Proof.
+  intros a a' H Hs. open_inv a H. unfold astep in Hs; flds.
+  destruct sp as [k|k [|j|]|k|]; try discriminate.
+  inversion Hs; subst; clear Hs. unf; flds. cbn [written pushed] in *.
+  destruct rp as [|t]; [|destruct (C5 t eq_refl) as (Hq & Ht & Hlv); subst rq; destruct ap]; flds;
+    constructor; flds; cbn [pushed written datas] in *; auto; try lia; try (intros; discriminate);
+    try (rewrite app_length; cbn; lia).
+  - rewrite datas_app. cbn [datas]. rewrite app_assoc, C3, seq_snoc. reflexivity.
+  - rewrite app_nil_r in *. rewrite C3, seq_snoc. reflexivity.
+  - rewrite app_nil_r in *. rewrite C3, seq_snoc. reflexivity.
+  - rewrite app_nil_r in *. rewrite C3, seq_snoc. reflexivity.
+Qed.
+Ltac eqs :=
+  repeat match goal with
+         | H : AGate _ = AGate _ |- _ => inversion H; subst; clear H
+         | H : RRead _ = RRead _ |- _ => inversion H; subst; clear H
+         | H : CSIn _ _ = CSIn _ _ |- _ => inversion H; subst; clear H
+         | H : EpPausing _ = EpPausing _ |- _ => inversion H; subst; clear H
+         | H : @eq aph _ _ |- _ => discriminate H
+         | H : @eq rph _ _ |- _ => discriminate H
+         | H : @eq csph _ _ |- _ => discriminate H
+         | H : @eq epi _ _ |- _ => discriminate H
+         | H : @eq bool _ _ |- _ => discriminate H
+         | H : exists _, _ |- _ => destruct H
+         end.
+
+Ltac fin := intros; eqs; repeat split; intros; unfold x_live, pend in *; cbn [xDeliv xS xCnt xA xR orb andb negb] in *; rewrite ?Bool.orb_true_r in *; eqs; eauto; try lia; try (apply Nat.ltb_lt; lia); try discriminate.
+
+Lemma quiescent_props : forall a, x_quiescent n W a = true ->
+  (match xS a with CSGate _ => False | CSIn _ SPassed => False | CSIn _ SIdle => False
+              | CSPush _ => W <= xCnt a | _ => True end) /\
+  (xR a = RIdle -> n <= length (xDeliv a)) /\ (xA a = AIdle -> xCnt a = 0).
+Proof.
+  intros a H. unfold x_quiescent, x_live in H.
+  apply Bool.andb_true_iff in H. destruct H as (H & H3). apply Bool.andb_true_iff in H. destruct H as (H1 & H2).
+  repeat split.
+  - destruct (xS a) as [k|k [|j|]|k|]; try discriminate; auto. apply Nat.leb_le. exact H1.
+  - intros E. rewrite E in H2. apply Bool.negb_true_iff in H2. apply Nat.ltb_ge in H2. exact H2.
+  - intros E. rewrite E in H3. apply Bool.negb_true_iff in H3. apply Nat.ltb_ge in H3. lia.
+Qed.
+
+Ltac tick_eval Hs :=
+  cbv [x_tickS x_tickA x_tickR x_acall x_aread x_setA x_setCnt x_setS x_setR x_rarrive x_deliver x_ack x_gate
+       x_flags x_bad xPausing xA xAq xAcked xS xCnt xR xRq xDeliv xBad xEp cT cSL cGL cf] in Hs;
+  inversion Hs; subst; clear Hs.
+
+Lemma step_tick : forall a a', AInv a -> astep cf n W P a XTick = Some a' -> AInv a'.
+Proof.
+  intros a a' H Hs.
+  pose proof (deliv_len a H) as DL. pose proof (written_le a H) as WL.
+  assert (SE : forall t, x_live n a = true -> xR a = RRead t -> pend a = false ->
+            (exists k j, xS a = CSIn k (SSleep j)) \/ (exists j, xA a = AGate j))
+    by (intros t; apply sleeper_exists; exact H).
+  unfold astep in Hs.
+  destruct (x_quiescent n W a) eqn:Hq; [|discriminate]. cbn [andb] in Hs.
+  destruct (quiescent_props a Hq) as (Q1 & Q2 & Q3). clear Hq.
+  open_inv a H.
+  unfold ep_tick, slack in Hs. cbn [cSL cGL cf] in Hs.
+  unfold x_live, pend in Ti, SE; flds. unfold x_live in C5; flds.
+  unfold sleeper_ok in *. destruct P1 as [P1a P1b].
+  destruct (Nat.ltb_spec (length dl) n) as [Hlive|Hdead].
+  2:{ (* the peer has everything: only our ack reader is still at work *)
+    destruct rp as [|t]; [|destruct (C5 t eq_refl) as (_ & _ & X); discriminate].
+    destruct sp as [k|k [|j|]|k|]; cbn [written pushed] in *; try contradiction; try lia.
+    - destruct ap as [|j|]; [|pose proof (P2a j eq_refl); destruct j as [|[|j]]|];
+        try (specialize (Q3 eq_refl)); try (specialize (C4 eq_refl));
+        destruct ep as [|e|e i]; destruct pa;
+        try (exfalso; destruct (P1a eq_refl) as (? & X); discriminate X);
+        try (exfalso; assert (X : false = true) by (apply P1b; eauto); discriminate X);
+        try (destruct (Nat.ltb_spec e P)); try discriminate;
+        try (destruct (Nat.ltb_spec (S i) (Nat.max SL GL)));
+        try (exfalso; lia);
+        try (destruct aq as [|q]);
+        tick_eval Hs;
+        constructor; flds; cbn [pushed written datas elapsed] in *; fin.
+    - destruct ap as [|j|]; [|pose proof (P2a j eq_refl); destruct j as [|[|j]]|];
+        try (specialize (Q3 eq_refl)); try (specialize (C4 eq_refl));
+        destruct ep as [|e|e i]; destruct pa;
+        try (exfalso; destruct (P1a eq_refl) as (? & X); discriminate X);
+        try (exfalso; assert (X : false = true) by (apply P1b; eauto); discriminate X);
+        try (destruct (Nat.ltb_spec e P)); try discriminate;
+        try (destruct (Nat.ltb_spec (S i) (Nat.max SL GL)));
+        try (exfalso; lia);
+        try (destruct aq as [|q]);
+        tick_eval Hs;
+        constructor; flds; cbn [pushed written datas elapsed] in *; fin. }
+  (* the peer's reader is waiting *)
+  destruct rp as [|t]; [specialize (Q2 eq_refl); lia|].
+  destruct (C5 t eq_refl) as (Hrq & Ht & _). subst rq. cbn [datas length] in DL.
+  destruct sp as [k|k [|j0|]|k|]; cbn [written pushed] in *; try contradiction; try lia.
+  - (* our sender is asleep at the gate *)
+    pose proof (P2s k j0 eq_refl) as PS. pose proof (Ti eq_refl t eq_refl eq_refl) as Tb.
+    destruct j0 as [|[|j0]];
+    (destruct ap as [|j|]; [|pose proof (P2a j eq_refl); destruct j as [|[|j]]|];
+        try (specialize (Q3 eq_refl)); try (specialize (C4 eq_refl));
+        destruct ep as [|e|e i]; destruct pa;
+        try (exfalso; destruct (P1a eq_refl) as (? & X); discriminate X);
+        try (exfalso; assert (X : false = true) by (apply P1b; eauto); discriminate X);
+        try (destruct (Nat.ltb_spec e P)); try discriminate;
+        try (destruct (Nat.ltb_spec (S i) (Nat.max SL GL)));
+        try (exfalso; lia);
+        try (destruct aq as [|q]);
+        (destruct t as [|[|t]]; [exfalso; cbn [elapsed] in Tb; lia|exfalso; cbn [elapsed] in Tb; lia|]);
+        tick_eval Hs;
+        constructor; flds; cbn [pushed written datas elapsed] in *; fin).
+  - (* our sender is blocked on the full ack channel *)
+    destruct ap as [|j|]; [specialize (Q3 eq_refl); lia| |specialize (C4 eq_refl); lia].
+    assert (Hp : (cnt <? W) || false || false = false) by (rewrite (proj2 (Nat.ltb_ge cnt W)) by lia; reflexivity).
+    pose proof (Ti eq_refl t eq_refl Hp) as Tb. pose proof (P2a j eq_refl) as PA.
+    destruct j as [|[|j]];
+      destruct ep as [|e|e i]; destruct pa;
+        try (exfalso; destruct (P1a eq_refl) as (? & X); discriminate X);
+        try (exfalso; assert (X : false = true) by (apply P1b; eauto); discriminate X);
+        try (destruct (Nat.ltb_spec e P)); try discriminate;
+        try (destruct (Nat.ltb_spec (S i) (Nat.max SL GL)));
+        try (exfalso; lia);
+        try (destruct aq as [|q]);
+        (destruct t as [|[|t]]; [exfalso; cbn [elapsed] in Tb; lia|exfalso; cbn [elapsed] in Tb; lia|]);
+        tick_eval Hs;
+        constructor; flds; cbn [pushed written datas elapsed] in *; fin.
+Qed.
+
 End AbstractProofs.
